@@ -143,6 +143,8 @@ static void pump_check_after(struct rthr *th, int id, int ret)
 	int a = px->achan, b = px->bchan;
 
 	(void)th;
+	if (ret >= 0 && !!iv_fd_pump_is_done(&px->p) != (ret == 0))
+		viol("C17.retval", "pump obj %d: iv_fd_pump_is_done() says %d right after the pump call returned %d", id, iv_fd_pump_is_done(&px->p), ret);
 	if (ret == 1) {
 		int want_in = !px->p.full && px->p.saw_fin == 0;
 		int want_out = px->p.saw_fin == 1 ? 1 : px->p.bytes > 0;
